@@ -701,9 +701,11 @@ func runSchedule(s *Schedule, gen Generator, orc Oracle, rng *Rng) *RunResult {
 	res.Fingerprint = hashHex(w.fp...)
 	res.TraceDigest = hashHex(w.trace...)
 	s.Trace = w.trace
+	// fault-free = no network or process fault fired (clock variation, parameter changes and the
+	// property-specific adversarial inputs are workload, not faults, for this count)
 	ff := true
-	for k, v := range res.Faults {
-		if v > 0 && k != "out_of_gas_fired" {
+	for _, k := range []string{"tx_drop", "tx_dup", "tx_delay", "tx_reorder", "out_of_gas", "crash_restart", "multi_msg", "export_import"} {
+		if res.Faults[k] > 0 {
 			ff = false
 		}
 	}
